@@ -78,6 +78,14 @@ def obs_class(want, got):
     return "final-value"
 
 
+def resolve(want):
+    """expected observation; range cases keep it as ("r", form, a, b, s, bk, ck, limit) until needed"""
+    if isinstance(want, tuple):
+        _, form, a, b, s, bk, ck, limit = want
+        return list(L.apply_body(L.ref_seq(form, a, b, s, limit), bk, ck))
+    return want
+
+
 class Table(object):
     """calls for one module + what the spec side says about each of them"""
 
@@ -109,12 +117,11 @@ def range_tables(rows8, rows8x, tier, rng, rep, stats):
         form, s, a = r["form"], r["step"], r["start"]
         for i, b in enumerate(r["stops"]):
             n, m, ev = r["n"][i], r["m"][i], r["ev"][i]
-            seq = L.ref_seq(form, a, b, s)
             om, oe = L.model_row(ty_o, form, a, b, s, L.CAP8)[1:]
             # quick: all bodies where a wrap event exists or the range is short, else the plain body + 2 others
             bodies = BODIES if (tier == "thorough" or ev or oe or n <= 3) else [BODIES[0]] + rng.sample(BODIES[1:], 2)
             for bk, ck in bodies:
-                want = list(L.apply_body(seq, bk, ck))
+                want = ("r", form, a, b, s, bk, ck, None)
                 for bounds, ty, mm, ee in (("t", ty_t, m, ev), ("o", ty_o, om, oe)):
                     pred = None
                     desc = {"part": "range", "type": tag, "signed": bool(r["s"]), "bounds": bounds, "form": form, "cause": "", "dev": False,
@@ -135,7 +142,6 @@ def range_tables(rows8, rows8x, tier, rng, rep, stats):
             if (r["s"], form, s, a, b) in seen:
                 continue
             n, m, ev = r["n"][i], r["m"][i], r["ev"][i]
-            seq = L.ref_seq(form, a, b, s)
             for bk, ck in (BODIES if (ev or n <= 3) else BODIES[:1]):
                 pred = None
                 desc = {"part": "range", "type": tag, "signed": bool(r["s"]), "bounds": "t", "form": form, "cause": "", "dev": False,
@@ -144,7 +150,7 @@ def range_tables(rows8, rows8x, tier, rng, rep, stats):
                     _, hz = L.classify(ty_t, form, a, b, s, bk, ck, L.CAP8)
                     desc["cause"], desc["dev"], pred = hz["cause"], hz["dev"], hz["pred"]
                     stats["hazard_calls"] += 1
-                tabs[tag].add("r_%s_%s_t" % (form, L.sname(s)), [a, b, bk, ck], list(L.apply_body(seq, bk, ck)), desc, pred)
+                tabs[tag].add("r_%s_%s_t" % (form, L.sname(s)), [a, b, bk, ck], ("r", form, a, b, s, bk, ck, None), desc, pred)
     # (R2) 32/64-bit types on the boundary grid: reference and hazard description from the transcription
     for tag, _, bits, signed in L.RTYPES:
         if bits == 8:
@@ -157,13 +163,13 @@ def range_tables(rows8, rows8x, tier, rng, rep, stats):
                     for a in g:
                         for b in g:
                             n, m, ev = L.model_row(ty, form, a, b, s, L.CAPW)
-                            bodies = BODIES if (tier == "thorough" or ev) else [BODIES[0]] + rng.sample(BODIES[1:], 2)
+                            bodies = BODIES if ev else [BODIES[0]] + rng.sample(BODIES[1:], 4 if tier == "thorough" else 2)
                             for bk, ck in bodies:
                                 n_exec = bk if (0 < bk <= n and bk != ck) else n
                                 if n_exec > L.CAPW:
                                     stats["skipped_long"] += 1
                                     continue
-                                want = list(L.apply_body(L.ref_seq(form, a, b, s, L.CAPW + 1), bk, ck))
+                                want = ("r", form, a, b, s, bk, ck, L.CAPW + 1)
                                 desc = {"part": "range", "type": tag, "signed": signed, "bounds": bounds, "form": form, "cause": "", "dev": False,
                                         "special": special(signed, form, s)}
                                 pred = None
@@ -440,70 +446,71 @@ def run(tier, seed):
     write_p_modules(pdir, CONST_TRIPLES)
     phase["tables"] = round(time.time() - t0, 1)
 
-    CH = 100000     # calls per child
-    jobs = []
-    for key, tab in tabs.items():
-        for lo in range(0, max(1, len(tab.calls)), CH):
-            for comp in (True, False):
-                jobs.append((key, lo, comp))
-
-    def replay_chunk(job):
-        key, lo, comp = job
-        tab = tabs[key]
-        calls = tab.calls[lo:lo + CH]
-        if comp:
-            return L.run_table(os.path.dirname(builds[tab.module].so), tab.module, calls, True, "c%d" % lo, timeout=2400)
-        return L.run_table(pdir, tab.module, calls, False, "p_%s_%d" % (tab.module, lo), timeout=2400)
-    with concurrent.futures.ThreadPoolExecutor(max_workers=min(16, core.NCPU)) as ex2:
-        res = list(ex2.map(replay_chunk, jobs))
-    results = {key: ([], []) for key in tabs}
-    for (key, lo, comp), r in zip(jobs, res):
-        results[key][0 if comp else 1].extend(r)
-
-    phase["replay"] = round(time.time() - t0, 1)
-    # ---- verdicts
-    n_calls = n_nontriv = n_pred = n_pred_ok = 0
+    # ---- replay + verdicts, chunk by chunk (a chunk = one child per side)
+    CH = 100000
+    jobs = [(key, lo) for key, tab in tabs.items() for lo in range(0, max(1, len(tab.calls)), CH)]
+    tot = collections.Counter()
     distinct = set()
     samples = []
-    for key, tab in tabs.items():
-        oc, op = results[key]
-        for call, (want, desc, pred), c, p in zip(tab.calls, tab.meta, oc, op):
-            n_calls += 1
+
+    def replay_chunk(job):
+        key, lo = job
+        tab = tabs[key]
+        calls = tab.calls[lo:lo + CH]
+        oc = L.run_table(os.path.dirname(builds[tab.module].so), tab.module, calls, True, "c%d" % lo, timeout=2400)
+        op = L.run_table(pdir, tab.module, calls, False, "p_%s_%d" % (tab.module, lo), timeout=2400)
+        return oc, op
+
+    def judge(job, oc, op):
+        key, lo = job
+        tab = tabs[key]
+        calls = tab.calls[lo:lo + CH]
+        good = []
+        for idx, (call, (want, desc, pred), c, p) in enumerate(zip(calls, tab.meta[lo:lo + CH], oc, op)):
+            want = resolve(want)
+            tot["calls"] += 1
             if p != want:
                 rep.spec_drift("expected observation vs CPython", {"module": tab.module, "call": call, "spec": want, "cpython": p})
                 continue
             if isinstance(want, str) or want[0]:
-                distinct.add((tab.module, json.dumps(call)))
+                distinct.add(hash((tab.module, call[0], json.dumps(call[1]))))
+                if len(good) < 2000:
+                    good.append(idx)
             if pred is not None:
-                n_pred += 1
-                n_pred_ok += (c == pred)
+                tot["pred"] += 1
+                tot["pred_ok"] += (c == pred)
             if c != want:
                 oc_ = obs_class(want, c)
                 if pred is not None and c == pred:
                     oc_ = "wrap-as-modelled"
                 rep.disagree(desc, oc_, {"module": tab.module, "call": call, "want": want, "got": c, "model_predicts": pred})
-        nt = [i for i, m in enumerate(tab.meta) if isinstance(m[0], str) or m[0][0]][:5000]
-        if nt:
-            i = rng.choice(nt)
-            samples.append({"module": tab.module, "call": tab.calls[i], "expected": tab.meta[i][0], "compiled": oc[i], "cpython": op[i]})
-    n_nontriv = len(distinct)
-
-    # ---- binding demonstration: corrupted expectations must be rejected (uses P only)
-    k = 0
-    for key, tab in tabs.items():
-        op = results[key][1]
-        for idx in rng.sample(range(len(tab.calls)), min(40, len(tab.calls))):
-            want = tab.meta[idx][0]
-            if isinstance(want, str):
-                bad_want = [[], L.SENT, True]
-            else:
-                bad_want = [list(want[0]) + [12345]] + list(want[1:])
+        if good and lo == 0:
+            i = rng.choice(good)
+            samples.append({"module": tab.module, "call": calls[i], "expected": resolve(tab.meta[lo + i][0]), "compiled": oc[i], "cpython": op[i]})
+        # binding demonstration: corrupted expectations must be rejected (uses P only)
+        for idx in rng.sample(range(len(calls)), min(10, len(calls))):
+            want = resolve(tab.meta[lo + idx][0])
             if op[idx] != want:
-                continue        # reported as drift below
+                continue        # reported as drift
+            bad_want = [[], L.SENT, True] if isinstance(want, str) else [list(want[0]) + [12345]] + list(want[1:])
             if op[idx] == bad_want:
-                core.die("binding self-test failed on %s %r" % (tab.module, tab.calls[idx]))
-            k += 1
-    stats["corrupted_expectations_rejected"] = k
+                core.die("binding self-test failed on %s %r" % (tab.module, calls[idx]))
+            tot["corrupted_rejected"] += 1
+    # children run in parallel; chunks are judged in job order as they arrive (bounded look-ahead keeps memory flat)
+    with concurrent.futures.ThreadPoolExecutor(max_workers=min(8, core.NCPU)) as ex2:
+        pending = collections.deque()
+        it = iter(jobs)
+        for job in it:
+            pending.append((job, ex2.submit(replay_chunk, job)))
+            if len(pending) >= 10:
+                jb, f = pending.popleft()
+                judge(jb, *f.result())
+        while pending:
+            jb, f = pending.popleft()
+            judge(jb, *f.result())
+    phase["replay"] = round(time.time() - t0, 1)
+    n_calls, n_nontriv, n_pred, n_pred_ok = tot["calls"], len(distinct), tot["pred"], tot["pred_ok"]
+    stats["corrupted_expectations_rejected"] = tot["corrupted_rejected"]
 
     cov.update({
         "states": sum(t.generated for t in tl.values()), "distinct_states": sum(t.distinct for t in tl.values()),
